@@ -471,7 +471,8 @@ class Evaluator:
 
             return self.binop(st, op, get(A, a), get(B, b))
 
-        return AExpr(shape, fn, "i64")
+        both_bool = all(X is None or X.dtype == "bool" for X in (A, B)) and all(X is not None or is_boolv(x) for X, x in ((A, a), (B, b)))
+        return AExpr(shape, fn, "bool" if both_bool and isinstance(op, (ast.BitAnd, ast.BitOr)) else "i64")
 
     def compare(self, st, op, a, b):
         if isinstance(op, (ast.Is, ast.IsNot)):
@@ -698,6 +699,8 @@ class Evaluator:
     def mask_filter(self, st, base, mask):
         """a[mask] for 1-D a: a fresh array whose elements are exactly the elements of `a` selected by the mask (order not modelled)"""
         src = self.to_aexpr(st, base)
+        if src.ndim == 2 and mask.ndim == 1:
+            return self.row_filter(st, src, mask)
         if src.ndim != 1 or mask.ndim != 1:
             raise Unsupported("boolean mask filtering of a non 1-D array")
         n = src.shape[0]
@@ -711,6 +714,26 @@ class Evaluator:
         st.pc.append(z3.And(nf >= 0, nf <= n))
         st.pc.append(z3.ForAll([j], z3.Implies(z3.And(j >= 0, j < nf), z3.Exists([i], z3.And(i >= 0, i < n, zbool(truth(mask.fn([i]))), z3.Select(term, j) == zint(src.fn([i])))))))
         st.pc.append(z3.ForAll([i], z3.Implies(z3.And(i >= 0, i < n, zbool(truth(mask.fn([i])))), z3.Exists([j], z3.And(j >= 0, j < nf, z3.Select(term, j) == zint(src.fn([i])))))))
+        return Arr(obj)
+
+    def row_filter(self, st, src, mask):
+        """A[mask] for 2-D A and a 1-D boolean mask over its rows: a fresh array whose rows are exactly the selected rows, in order.
+        f maps a result row to its source row (strictly increasing), g maps a selected source row to its result row (A-NUMPY)."""
+        n, cols = src.shape
+        if self.check_bounds and not st.spec:
+            self.oblige(st, "bounds", "rowmask.length", v_eq(mask.shape[0], n), tags={"C16"})
+        obj = ArrObj("filtered", src.dtype, [fresh_int("nf"), cols])
+        term = obj.fresh_term()
+        st.heap[obj.id] = term
+        nf = obj.shape[0]
+        f = z3.Function(fresh_name("rowsrc"), INT, INT)
+        g = z3.Function(fresh_name("rowdst"), INT, INT)
+        j, i, c = z3.Int(fresh_name("j")), z3.Int(fresh_name("i")), z3.Int(fresh_name("c"))
+        st.pc.append(z3.And(nf >= 0, nf <= zint(n)))
+        st.pc.append(z3.ForAll([j], z3.Implies(z3.And(j >= 0, j < nf), z3.And(f(j) >= 0, f(j) < zint(n), zbool(truth(mask.fn([f(j)]))), g(f(j)) == j)), patterns=[f(j)]))
+        st.pc.append(z3.ForAll([j, c], z3.Implies(z3.And(j >= 0, j < nf, c >= 0, c < zint(cols)), z3.Select(term, j, c) == zint(src.fn([f(j), c]))), patterns=[z3.Select(term, j, c)]))
+        st.pc.append(z3.ForAll([i], z3.Implies(z3.And(i >= 0, i < zint(n), zbool(truth(mask.fn([i])))), z3.And(g(i) >= 0, g(i) < nf, f(g(i)) == i)), patterns=[g(i)]))
+        st.env["__rowmap__"] = (f, g)
         return Arr(obj)
 
     def e_Attribute(self, node, st):
